@@ -125,7 +125,7 @@ PROPERTIES = {
         'technique': TECH,
     },
     'C07': {
-        'units': [ef.UpdateCSR, ef.WakePotential, z.FreeSpaceCSRCalc, z.ResistiveWallCalc, z.ConstImpedanceCalc, z.ParallelPlatesCalc, z.CollimatorCtor, z.MakeImpedance],
+        'units': [ef.UpdateCSR, ef.WakePotential, z.FreeSpaceCSRCalc, z.ResistiveWallCalc, z.ConstImpedanceCalc, z.ParallelPlatesCalc, z.CollimatorCtor, z.MakeImpedance, ef.ElectricFieldScale],
         'lemmas': [],
         'lean': [('lemmas/Parseval.lean', 'L-PARSEVAL.power_eq_wake_loss', {'C07'})],
         'level': 'other',
